@@ -393,6 +393,64 @@ def check_object_rows(kinds, ticks=3):
 OBJECT_CASES = [['Glucose'], ['Glucose', 'Atp'], ['Atp', 'Nadh', 'Glucose'], ['Nadh'], ['Atp', 'Glucose']]
 
 
+def check_shared_table(order, embed):
+    """several emitters write ONE table (shared_ram; an embedded engine writes below embed_path): a row is the union of what was
+    emitted for its time, whoever wrote last; the same content again is accepted, different content for one time is refused"""
+    from vivarium.core.emitter import SharedRamEmitter, RAMEmitter
+    fails = []
+    SharedRamEmitter.saved_data.clear()
+    try:
+        outer = SharedRamEmitter({})
+        inner = SharedRamEmitter({'embed_path': tuple(embed)})
+        node = {'boundary': {'uptake': 1.5}}
+        for name in reversed(embed):
+            node = {name: node}
+        rows_outer = {t: dict(copy.deepcopy(node), fields={'glc': float(t)}) for t in (0.0, 1.0, 2.0)}
+        rows_inner = {t: {'internal': {'m': 2.0 + t, 'label': 'x'}} for t in (0.0, 1.0, 2.0)}
+        for t in (0.0, 1.0, 2.0):
+            for who in (order if t != 1.0 else order[::-1]):
+                if who == 'outer':
+                    outer.emit({'table': 'history', 'data': dict(copy.deepcopy(rows_outer[t]), time=t)})
+                else:
+                    inner.emit({'table': 'history', 'data': dict(copy.deepcopy(rows_inner[t]), time=t)})
+        data = outer.get_data()
+        for t in (0.0, 1.0, 2.0):
+            row = data.get(t, {})
+            at = row
+            for name in embed:
+                at = at.get(name, {}) if isinstance(at, dict) else {}
+            if not isinstance(at, dict) or at.get('boundary') != {'uptake': 1.5} or at.get('internal') != rows_inner[t]['internal'] \
+                    or row.get('fields') != {'glc': float(t)}:
+                fails.append('shared table, row %s: holds %r; emitted were %r by the outer and %r below %s by the embedded emitter'
+                             % (t, row, rows_outer[t], rows_inner[t], tuple(embed)))
+        # the same row again is accepted and changes nothing; a different value for a recorded variable is refused
+        before = copy.deepcopy(outer.get_data())
+        inner.emit({'table': 'history', 'data': dict(copy.deepcopy(rows_inner[1.0]), time=1.0)})
+        if outer.get_data() != before:
+            fails.append('re-emitting an identical row changed the table')
+        try:
+            inner.emit({'table': 'history', 'data': {'internal': {'m': -1.0}, 'time': 1.0}})
+            fails.append('a second, DIFFERENT value for a variable at a recorded time was accepted: row 1.0 is now %r'
+                         % (outer.get_data().get(1.0),))
+        except ValueError:
+            pass
+        private = RAMEmitter({})
+        private.emit({'table': 'history', 'data': {'a': {'x': 1}, 'time': 0.0}})
+        try:
+            private.emit({'table': 'history', 'data': {'a': {'x': 2}, 'time': 0.0}})
+            fails.append('a private RAM emitter accepted two different rows for one time: %r' % (private.get_data(),))
+        except ValueError:
+            pass
+    except Exception as e:
+        fails.append('shared table scenario raised %s: %s' % (type(e).__name__, str(e)[:160]))
+    finally:
+        SharedRamEmitter.saved_data.clear()
+    return fails[:3]
+
+
+SHARED_CASES = [(order, embed) for order in (('outer', 'inner'), ('inner', 'outer')) for embed in (['agents', '0'], ['cell'])]
+
+
 def main():
     ap = argparse.ArgumentParser()
     ap.add_argument('--tier', default='quick'); ap.add_argument('--seed', type=int, default=0)
@@ -400,7 +458,8 @@ def main():
     a = ap.parse_args()
     if a.replay:
         scn = json.load(open(a.replay))['scenario']
-        fails = check_object_rows(scn['object_kinds']) if 'object_kinds' in scn else check(scn)
+        fails = check_shared_table(tuple(scn['shared'][0]), scn['shared'][1]) if 'shared' in scn else \
+            check_object_rows(scn['object_kinds']) if 'object_kinds' in scn else check(scn)
         L.emit_result({'status': 'reproduced' if fails else 'not-reproduced', 'failed': fails})
         return
     n = 300 if a.tier == 'quick' else 5000
@@ -429,6 +488,15 @@ def main():
         if fails:
             rp = L.write_replay(a.out, 'C12', 'objects%d' % oi, {'object_kinds': kinds}, fails, extra={'driver': 'bounded.c12'})
             failures.append({'id': 'C12.bounded.objects#%d: %s' % (oi, fails[0][:260]), 'replay': rp})
+    for si, (order, embed) in enumerate(SHARED_CASES):
+        if len(failures) >= 3:
+            break
+        evaluations += 1
+        distinct.add('shared-%d' % si)
+        fails = check_shared_table(order, embed)
+        if fails:
+            rp = L.write_replay(a.out, 'C12', 'shared%d' % si, {'shared': [list(order), embed]}, fails, extra={'driver': 'bounded.c12'})
+            failures.append({'id': 'C12.bounded.shared-table#%d: %s' % (si, fails[0][:260]), 'replay': rp})
     L.emit_result({'status': 'violated' if failures else 'ok', 'evaluations': evaluations,
                    'distinct_nontrivial': len(distinct), 'failures': failures, 'samples': samples,
                    'rule': 'seeded random (variables, kinds, emit flags, store_schema overrides, emit_step, run length); '
